@@ -423,8 +423,16 @@ def rule_r3(ctx: Ctx) -> None:
     ctx.check(repr(ge) == repr(("Rational", 64)), dl._cls_.short + "._attribute", "delimited: _extent_ -> %r" % (ge,), "`T._extent_` of a delimited type is the declared extent", dl._cls_.module.relpath)
 
 
+def rule_r4_keys(ctx: Ctx) -> None:
+    from . import approx_keys
+
+    ctx.rule("C08.R4", "offsets are computed for the base offset set given: the offset iterators and the `_offset_` intrinsic hold no table or memo keyed by the (approximate) equality of a length set or type", min_instances=1)
+    approx_keys.rule(ctx, "C08.R4", ["_serializable", "_data_type_builder"], "two different base offset sets may compare equal (min, max and a few residues): offsets looked up by equality belong to another base", "pydsdl/_serializable/_composite.py")
+
+
 def run(ctx: Ctx) -> None:
     ctx.attempt(rule_r1_r2, ctx)
     ctx.attempt(rule_r3, ctx)
+    ctx.attempt(rule_r4_keys, ctx)
     ctx.assume("the bit-length-set algebra is exact (C01); alignments are powers of two and the delimiter header is a multiple of the alignment (C02)")
     ctx.undecided("numerical equality of the offset sets with the encoder's positions (only the agreement of the traces / terms is decided)")
